@@ -582,6 +582,14 @@ fn sig_for(c: &Case, canonical: bool) -> Sig {
             mutating!(&cn.opt, Some(-99), |mk| mut_nan(&mk, &|x: &Option<i32>| x.map(|v| v as f64).unwrap_or(-1e9), "opt", &mut out));
         }
     }
+    // --- 1-D: Edges / Bins built from an OWNED array in this layout (its allocation holds more cells than it shows)
+    if d == 1 {
+        let owned = if canonical { ndarray::Array1::from(cn.i.clone()) } else { Host::new(&c.shape, &cn.i, &l, -99).into_owned_layout().into_dimensionality::<Ix1>().unwrap() };
+        let edges = Edges::from(owned);
+        out.push(("edges_from_owned_array1".into(), Val::I(edges.iter().cloned().collect())));
+        let bins = Bins::new(edges);
+        out.push(("bins_index_of".into(), Val::S(format!("{:?}", (-6..8).map(|v| bins.index_of(&v)).collect::<Vec<_>>()))));
+    }
     // --- 2-D only
     if d == 2 {
         with_repr!(kind, &c.shape, &cn.f, &l, 777.0, |a| {
